@@ -164,6 +164,41 @@ def interleaved_variants(pid, scripts, rnd, cap=14):
         out.append(merged); stats['pairs'] += 1
     return out, stats
 
+# ---- a deep copy takes over: a script is cut in the middle, the complex (or filtration) it works on is deep-copied, and
+# the rest of the script runs on the deep copy while the original stays as it was at the cut.  Whatever a deep copy still
+# shares with its source -- a back-pointer, a bound method of a table, the tables of a subclass -- then answers for the
+# wrong object as soon as the two differ; the model's deep copy shares nothing.
+def deepcopy_variants(pid, scripts, rnd, cap=10):
+    out = []; stats = {'variants': 0}
+    cand = [sc for sc in scripts if sc and not sc[0].startswith('exotic') and len(sc) < 300
+            and not any(l.split()[0] in ('emb', 'embm', 'embp', 'reset', 'iter') or 'save-all' in l or l.startswith('#') for l in sc if l.split())]
+    rnd.shuffle(cand)
+    for sc in cand:
+        if len(out) >= cap: break
+        bare = lambda l: [x for x in l.split() if x != '!']
+        first = next((bare(l) for l in sc if bare(l) and bare(l)[0] in ('new', 'newf')), None)
+        if first is None or len(first) < 2: continue
+        v = first[1]
+        if not _re.match(r'^[a-z]$', v): continue
+        us = _units(sc)
+        if len(us) < 6: continue
+        k = rnd.randint(3, len(us) - 2)
+        head = [l for u in us[:k] for l in u]; tail = [l for u in us[k:] for l in u]
+        if not any(bare(l) and bare(l)[0] in ('new', 'newf') and bare(l)[1] == v for l in head): continue
+        if any(bare(l) and bare(l)[0] in ('new', 'newf') and len(bare(l)) > 1 and bare(l)[1] == v for l in tail): continue
+        # a script whose build-up the model does not run (`! ...` lines, the state handed over by `sync`): the deep copy is
+        # taken on the implementation side too, and the later `sync` hands over the deep copy's state
+        implonly = all(l.startswith('! ') or l.startswith('echo') or not l.strip() for l in head)
+        if not implonly and any(bare(l) and bare(l)[0] == 'sync' and len(bare(l)) > 1 and bare(l)[1] == v for l in tail): continue
+        d = v + 'D'
+        def ren_line(l):
+            t = l.split(' ')
+            keep = {1} if t and t[0] == 'check' else set()
+            return ' '.join(x if (i in keep or x != v) else d for i, x in enumerate(t))
+        out.append(head + [('! ' if implonly else '') + 'deepcopy %s %s' % (d, v)] + [ren_line(l) for l in tail])
+        stats['variants'] += 1
+    return out, stats
+
 def merge_stats(total, st):
     for k, v in st.items():
         total[k] = total.get(k, 0) + v
